@@ -555,3 +555,98 @@ contract(
         "taxonomy_tree == old(taxonomy_tree)",
     ],
 )
+
+
+# ---------------------------------------------------------------------------------------------
+# get_taxonomy_tree (C10, second sentence): "building it from per-cell label columns reproduces
+# exactly the label combinations present" - and a label table that is not a tree (a label with two
+# different parents) is refused.  Bounded: every label table with <= 3 levels, <= 4 cells and
+# <= 2 labels per level, then seeded random larger tables (labels shared between levels included).
+# ---------------------------------------------------------------------------------------------
+def ref_label_tree(records, H):
+    """the table is a tree: at every level below the top a label always comes with the same parent"""
+    for up, dn in zip(H[:-1], H[1:]):
+        seen = {}
+        for r in records:
+            if seen.setdefault(str(r[dn]), str(r[up])) != str(r[up]):
+                return False
+    return True
+
+
+def ref_children(records, up, dn):
+    out = {}
+    for r in records:
+        out.setdefault(str(r[up]), set()).add(str(r[dn]))
+    return out
+
+
+def ref_rows(records, leaf):
+    out = {}
+    for i, r in enumerate(records):
+        out.setdefault(str(r[leaf]), []).append(i)
+    return out
+
+
+def _enum_label_tables(size):
+    import itertools
+    for n_levels in (1, 2, 3):
+        H = ['class', 'subclass', 'cluster'][3 - n_levels:]
+        labels = [['a', 'b'], ['a', 'c'], ['x', 'y']][3 - n_levels:]       # 'a' names nodes of two levels
+        rows = list(itertools.product(*labels))
+        for n_cells in range(1, 5):
+            for combo in itertools.product(rows, repeat=n_cells):
+                yield dict(obs_records=[dict(zip(H, c), other=7) for c in combo], column_hierarchy=list(H))
+
+
+def _gen_label_table(rng, size):
+    n_levels = rng.randint(1, 4)
+    H = [f"L{i}" for i in range(n_levels)]
+    rng.shuffle(H)
+    shared = rng.random() < 0.5
+    n_cells = rng.randint(1, 12)
+    # start from a valid tree (child label -> parent label), then sometimes break one cell
+    n_per = [rng.randint(1, 4) for _ in H]
+    names = [[(f"n{j}" if shared else f"{'abcd'[li]}{j}") for j in range(n)] for li, n in enumerate(n_per)]
+    parent_of = [None] + [{c: rng.choice(names[li - 1]) for c in names[li]} for li in range(1, n_levels)]
+    recs = []
+    for _ in range(n_cells):
+        lab = [None] * n_levels
+        lab[-1] = rng.choice(names[-1])
+        for li in range(n_levels - 1, 0, -1):
+            lab[li - 1] = parent_of[li][lab[li]]
+        recs.append(lab)
+    if n_levels > 1 and rng.random() < 0.45:
+        i = rng.randrange(n_cells)
+        li = rng.randrange(n_levels - 1)
+        recs[i][li] = rng.choice(names[li])           # possibly another parent for the same lower labels
+    if rng.random() < 0.2:
+        recs = [[(int(x[1:]) if x[1:].isdigit() and not shared and rng.random() < 0.5 else x) for x in r] for r in recs]
+    return dict(obs_records=[dict(zip(H, r)) for r in recs], column_hierarchy=list(H))
+
+
+contract(
+    M + 'get_taxonomy_tree',
+    properties=['C10'],
+    mode='bounded',
+    native=dict(enumerate=_with_random(_enum_label_tables, _gen_label_table, n_random=1500),
+                env=dict(REF_ENV, ref_label_tree=ref_label_tree, ref_children=ref_children, ref_rows=ref_rows,
+                         str=str, dict=dict),
+                bound="every label table with <= 3 levels, <= 4 cells, 2 labels per level (one label shared by two "
+                      "levels); 1500 seeded random tables with <= 4 levels, <= 12 cells",
+                max_enumerated=400000),
+    params=dict(obs_records='List[Dict[Name,Name]]', column_hierarchy='List[Name]'),
+    returns='Tree',
+    requires=["dupfree(column_hierarchy)", "'hierarchy' not in column_hierarchy", "len(column_hierarchy) >= 1",
+              "len(obs_records) >= 1"],
+    ensures=[
+        "result['hierarchy'] == column_hierarchy",
+        # exactly the label combinations present: parent -> set of children, for every adjacent pair of levels
+        "all(dict((p, set(result[column_hierarchy[k]][p])) for p in result[column_hierarchy[k]]) == "
+        "ref_children(old(obs_records), column_hierarchy[k], column_hierarchy[k + 1]) "
+        "for k in range(len(column_hierarchy) - 1))",
+        # every cell is a row of the leaf it is labelled with, in file order
+        "dict(result[column_hierarchy[-1]]) == ref_rows(old(obs_records), column_hierarchy[-1])",
+        "ref_wf(result)",
+    ],
+    raises={'RuntimeError': ('iff', "not ref_label_tree(obs_records, column_hierarchy)")},
+)
